@@ -204,6 +204,13 @@ Fixpoint count_loop_n {S R : Type} (f : Z -> S -> gres (lctl S R)) (n : nat) (i 
 Definition count_loop {S R : Type} (f : Z -> S -> gres (lctl S R)) (lo hi : Z) (s : S) : gres (lres S R) :=
   count_loop_n f (Z.to_nat (hi - lo)) lo s.
 
+(** [for i := lo; i < hi; i += k { body }], [k] a positive constant: iteration [j] runs with
+    [i = lo + j*k]. Go evaluates [i += k] before the failing test, so [hi <= MaxInt64 - k] keeps it
+    from wrapping; beyond that the translation is [GPanic] (stricter than Go). *)
+Definition stride_loop {S R : Type} (f : Z -> S -> gres (lctl S R)) (lo hi k : Z) (s : S) : gres (lres S R) :=
+  if hi >? 9223372036854775807 - k then GPanic
+  else count_loop (fun j st => f (lo + j * k) st) 0 ((hi - lo + k - 1) / k) s.
+
 (** what follows the loop: [k] on normal exit with the final state, [kr] on an early [return] *)
 Definition loop_k {S R X : Type} (l : gres (lres S R)) (k : S -> gres X) (kr : R -> gres X) : gres X :=
   match l with
